@@ -128,22 +128,22 @@ use iggy::consumer::ConsumerKind;
 fn nib(x: u64, k: u32) -> u8 {
     b'a' + ((x >> (4 * k)) & 0xF) as u8
 }
-fn enc32(x: u32) -> [u8; 8] {
+pub fn enc32(x: u32) -> [u8; 8] {
     let x = x as u64;
     [nib(x, 7), nib(x, 6), nib(x, 5), nib(x, 4), nib(x, 3), nib(x, 2), nib(x, 1), nib(x, 0)]
 }
 /// ids inside directory names: 4 nibbles (harness ids are small; larger ids are reported)
-fn enc16(x: u32) -> [u8; 4] {
+pub fn enc16(x: u32) -> [u8; 4] {
     assert!(x < 65536, "path stub: id >= 65536 is outside the harness bound");
     let x = x as u64;
     [nib(x, 3), nib(x, 2), nib(x, 1), nib(x, 0)]
 }
-fn enc64(x: u64) -> [u8; 16] {
+pub fn enc64(x: u64) -> [u8; 16] {
     [nib(x, 15), nib(x, 14), nib(x, 13), nib(x, 12), nib(x, 11), nib(x, 10), nib(x, 9), nib(x, 8),
      nib(x, 7), nib(x, 6), nib(x, 5), nib(x, 4), nib(x, 3), nib(x, 2), nib(x, 1), nib(x, 0)]
 }
 /// one allocation, one memcpy per path (String::push per character costs CBMC a growth check each)
-fn string_of(parts: &[&[u8]]) -> String {
+pub fn string_of(parts: &[&[u8]]) -> String {
     let mut v: Vec<u8> = Vec::with_capacity(64);
     let mut i = 0;
     while i < parts.len() {
